@@ -162,6 +162,22 @@ def run(ctx):
             ctx.violation("oracle", {"call": which, "in_place": False, "stratified_randomizer": strat, "group": grp, "strata": [c_[0] for c_ in cov], "seed": sd,
                                      "issue": "an Experiment passed with in_place=False was modified (or the call failed)", "returned": str(r)[:200],
                                      "group_after": e.group.tolist()}, site="Experiment")
+    # permute_incidence_fixed_sums must not touch the caller's matrix, whatever its dtype / memory layout
+    for _ in range(ctx.n(60, 800)):
+        a, b = ctx.rng.randint(2, 5), ctx.rng.randint(2, 5)
+        m = np.array([[ctx.rng.randint(0, 1) for _ in range(b)] for _ in range(a)])
+        m[0, 0], m[0, 1], m[1, 0], m[1, 1] = 1, 0, 0, 1          # at least one checkerboard
+        dt = ctx.rng.choice([np.int64, np.int8, np.uint8, np.int32, float, bool])
+        mm = m.astype(dt)
+        if ctx.rng.random() < 0.3:
+            mm = np.asfortranarray(mm)
+        snap = mm.tobytes(order="A"); k = ctx.rng.randint(1, 4)
+        r = guarded(utils.permute_incidence_fixed_sums, mm, k, ctx.rng.randint(0, 10**6))
+        ctx.case(("incidence-snapshot", tuple(map(tuple, m.tolist())), np.dtype(dt).name, k), True); ctx.count("incidence-dtype-" + np.dtype(dt).name)
+        if r[0] != "ok" or mm.tobytes(order="A") != snap:
+            ctx.violation("oracle", {"call": "permute_incidence_fixed_sums", "matrix": m.tolist(), "dtype": np.dtype(dt).name, "k": k,
+                                     "issue": "the caller's incidence matrix was modified (or the call failed)", "returned": str(r)[:200],
+                                     "matrix_after": mm.astype(int).tolist()}, site="permute_incidence_fixed_sums")
     o2, m2 = rt.run_recorded(ctx, [n_ for n_ in rt.FUNCS if n_ not in ("corr", "spearman_corr", "sim_corr")], ctx.n(25, 400))
     outs = run_model(ops + o2)
     agree = True
